@@ -186,6 +186,72 @@ struct FixedSol { values: IndexMap<String, f64> }
 impl rooc::Solution for FixedSol { type Value = f64; fn objective_value(&self) -> f64 { 0.0 } fn var_value(&self, v: &str) -> Option<f64> { self.values.get(v).copied() } }
 impl rooc::Solver for Fixed { type Solution = FixedSol; fn solve(&self, _: &LinearModel) -> Result<FixedSol, rooc::SolverError> { Ok(FixedSol { values: self.values.clone() }) } }
 
+/// models written with the declarative macros (every arm of vars!, constraint! and expr!) and with add_vars families, each next to
+/// the text program that says the same thing
+fn macro_corpus() -> Vec<(&'static str, ModelBuilder, String)> {
+    use rooc::{constraint, expr, vars};
+    let mut cases: Vec<(&'static str, ModelBuilder, String)> = Vec::new();
+    {
+        let mut m = ModelBuilder::new();
+        vars! { m => b0: bool; i0: int(-2, 5); r0: real; r1: real(-3.0, 4.5); n0: nonneg; n1: nonneg(0.5, 7.0); };
+        let mb = m.minimize(r0 + r1 + n0 + n1 + i0 + b0)
+            .with(constraint!(r0 >= -4.0)).with(constraint!(n0 + n1 <= 9.0)).with(constraint!(cap: r0 + r1 + i0 <= 3.0)).with(constraint!(r1 + b0 == 1.0));
+        cases.push(("vars! scalar arms, constraint! comparison arms", mb,
+            "min r0 + r1 + n0 + n1 + i0 + b0\ns.t.\n    r0 >= -4\n    n0 + n1 <= 9\n    cap: r0 + r1 + i0 <= 3\n    r1 + b0 = 1\ndefine\n    b0 as Boolean\n    i0 as IntegerRange(-2, 5)\n    r0 as Real\n    r1 as Real(-3, 4.5)\n    n0 as NonNegativeReal\n    n1 as NonNegativeReal(0.5, 7)".to_string()));
+    }
+    {
+        let mut m = ModelBuilder::new();
+        vars! { m => bs[3]: bool; ks[2]: int(0, 4); rs[2]: real; rb[2]: real(-1.0, 2.0); ns[2]: nonneg; nb[2]: nonneg(1.0, 3.0); };
+        let mb = m.minimize(rs[0] + rs[1] + rb[0] + rb[1] + ns[0] + ns[1] + nb[0] + nb[1] + ks[0] + ks[1] + bs[0] + bs[1] + bs[2])
+            .with(constraint!(rs[0] >= -2.0)).with(constraint!(rs[1] >= -3.0)).with(constraint!(ks[0] + ks[1] >= 1.0)).with(constraint!(bs[0] + bs[1] + bs[2] >= 1.0));
+        cases.push(("vars! array arms", mb,
+            "min rs_0 + rs_1 + rb_0 + rb_1 + ns_0 + ns_1 + nb_0 + nb_1 + ks_0 + ks_1 + bs_0 + bs_1 + bs_2\ns.t.\n    rs_0 >= -2\n    rs_1 >= -3\n    ks_0 + ks_1 >= 1\n    bs_0 + bs_1 + bs_2 >= 1\ndefine\n    bs_i as Boolean for i in 0..3\n    ks_i as IntegerRange(0, 4) for i in 0..2\n    rs_i as Real for i in 0..2\n    rb_i as Real(-1, 2) for i in 0..2\n    ns_i as NonNegativeReal for i in 0..2\n    nb_i as NonNegativeReal(1, 3) for i in 0..2".to_string()));
+    }
+    {
+        let mut m = ModelBuilder::new();
+        vars! { m => a: bool; b: bool; c: bool; d: bool; x: real(0.0, 10.0); };
+        let mb = m.maximize(2.0 * b - a + c + x - d)
+            .with(constraint!(a <-> b)).with(constraint!(c -> a)).with(constraint!(any(vec![a, d]))).with(constraint!(lim: x < 7.5)).with(constraint!(x > 0.5)).with(constraint!(d -> !c));
+        cases.push(("constraint! logic arms and strict comparisons", mb,
+            "max 2 * b - a + c + x - d\ns.t.\n    a iff b\n    c implies a\n    any{ a, d }\n    lim: x < 7.5\n    x > 0.5\n    d implies (not c)\ndefine\n    a, b, c, d as Boolean\n    x as Real(0, 10)".to_string()));
+    }
+    {
+        let mut m = ModelBuilder::new();
+        vars! { m => p: bool; q: bool; y: real(0.0, 4.0); };
+        let mb = m.minimize(y + expr!(p <-> q) + 2.0 * expr!(p -> q))
+            .with(BuilderConstraint::new(expr!(y), Comparison::GreaterOrEqual, expr!(p <-> q), "e".to_string()));
+        cases.push(("expr! arms inside arithmetic", mb,
+            "min y + (p iff q) + 2 * (p implies q)\ns.t.\n    e: y >= (p iff q)\ndefine\n    p, q as Boolean\n    y as Real(0, 4)".to_string()));
+    }
+    {
+        let mut m = ModelBuilder::new();
+        let x = m.add_vars("x", 3, VariableType::Real(-1.0, 4.0));
+        let z = m.add_vars("z", 2, VariableType::Boolean);
+        let mb = m.minimize(x[0] + 2.0 * x[1] + 3.0 * x[2] - z[0] - z[1]).with(constraint!(x[0] + x[1] + x[2] >= 1.0)).with(constraint!(z[0] + z[1] <= 1.0)).with(constraint!(x[2] - x[0] >= -2.0));
+        cases.push(("add_vars families", mb,
+            "min x_0 + 2 * x_1 + 3 * x_2 - z_0 - z_1\ns.t.\n    x_0 + x_1 + x_2 >= 1\n    z_0 + z_1 <= 1\n    x_2 - x_0 >= -2\ndefine\n    x_i as Real(-1, 4) for i in 0..3\n    z_i as Boolean for i in 0..2".to_string()));
+    }
+    cases
+}
+
+#[derive(Debug)]
+struct Doubler {}
+impl rooc::RoocFunction for Doubler {
+    fn call(&self, args: &[rooc::PreExp], context: &rooc::model_transformer::TransformerContext, fn_context: &rooc::type_checker::type_checker_context::FunctionContext) -> Result<rooc::Primitive, rooc::model_transformer::TransformError> {
+        match args.first().unwrap().as_iterator(context, fn_context)? {
+            rooc::IterableKind::Integers(i) => Ok(rooc::Primitive::Iterable(rooc::IterableKind::Integers(i.iter().map(|v| v * 2).collect()))),
+            other => Ok(rooc::Primitive::Iterable(other)),
+        }
+    }
+    fn type_signature(&self, _: &[rooc::PreExp], _: &rooc::type_checker::type_checker_context::TypeCheckerContext, _: &rooc::type_checker::type_checker_context::FunctionContext) -> Vec<(String, rooc::PrimitiveKind)> {
+        vec![("of_array".to_string(), rooc::PrimitiveKind::Iterable(Box::new(rooc::PrimitiveKind::Integer)))]
+    }
+    fn return_type(&self, _: &[rooc::PreExp], _: &rooc::type_checker::type_checker_context::TypeCheckerContext, _: &rooc::type_checker::type_checker_context::FunctionContext) -> rooc::PrimitiveKind {
+        rooc::PrimitiveKind::Iterable(Box::new(rooc::PrimitiveKind::Integer))
+    }
+    fn function_name(&self) -> String { "doubler".to_string() }
+}
+
 fn gen_case(r: &mut Rng, i: usize) -> Case {
     let gens = [ModelGen { logic: false, arith: true }, ModelGen { logic: true, arith: true }, ModelGen { logic: true, arith: false }, ModelGen { logic: false, arith: false }];
     let g = &gens[i % 4];
@@ -267,6 +333,16 @@ fn main() {
                 }
                 if i % 211 == 0 { rep.sample(json!({"text": text, "order": c.order}), 8); }
             }
+            // the declarative macros and add_vars families against the text that says the same
+            for (what, mb, text) in macro_corpus() {
+                rep.count("macro_cases");
+                let a = mb.clone().linearize();
+                let bt = RoocParser::new(text.clone()).parse_and_transform(vec![], &IndexMap::new()).map_err(|e| e.chars().take(200).collect::<String>()).and_then(|m| Linearizer::linearize(m).map_err(|e| e.to_string()));
+                match (&a, &bt) {
+                    (Ok(la), Ok(lb)) => { if let Err(why) = same_linear_shared(la, lb, &[]) { rep.fail(json!({"prop":"C16","kind":"macro-built-model-and-text-compile-differently","class":"unclassified","what":what,"text":text,"difference":why,"builder_linear":la.to_string(),"text_linear":lb.to_string()})); } }
+                    (x, y) => rep.fail(json!({"prop":"C16","kind":"macro-built-model-and-text-compile-differently","class":"unclassified","what":what,"text":text,"difference":format!("builder: {:?} ; text: {:?}", x.as_ref().map(|_| "compiles").map_err(|e| e.to_string()), y.as_ref().map(|_| "compiles"))})),
+                }
+            }
             // data through the API: the same program compiled (a) by parse_and_transform with constants, (b) by the staged pipes with
             // the same constants in the PipeContext, (c) with the data written in a where block - three times the same linear model
             for i in 0..(n / 10).max(8) {
@@ -285,6 +361,19 @@ fn main() {
                 let bpipe = match runner.run(PipeableData::String(src.clone()), &PipeContext::new(consts(), &fns)) { Ok(st) => match st.last() { Some(PipeableData::LinearModel(l)) => Ok(l.to_string()), _ => Err("last stage is not a linear model".to_string()) }, Err((e, _)) => Err(format!("{}", e).chars().take(160).collect::<String>()) };
                 let c = RoocParser::new(src_data.clone()).parse_and_transform(vec![], &fns).map_err(|e| e.chars().take(160).collect::<String>()).and_then(|m| Linearizer::linearize(m).map_err(|e| e.to_string())).map(|l| l.to_string());
                 rep.count("api_data_cases");
+                {   // the same with a user-defined function in the source: direct call and pipes get the same function map; the third spelling doubles the data
+                    let mut ufns: rooc::FunctionContextMap = IndexMap::new(); ufns.insert("doubler".to_string(), Box::new(Doubler {}));
+                    let srcf = src.replace("enumerate(values)", "enumerate(doubler(values))");
+                    let v2: Vec<i64> = v.iter().map(|x| 2 * x).collect();
+                    let src_data2 = format!("{head}\nwhere\n    let weights = {:?}\n    let values = {:?}\n    let capacity = {}\n    let shift = {}\n{tail}", w, v2, cap, shift);
+                    let fa = RoocParser::new(srcf.clone()).parse_and_transform(consts(), &ufns).map_err(|e| e.chars().take(160).collect::<String>()).and_then(|m| Linearizer::linearize(m).map_err(|e| e.to_string())).map(|l| l.to_string());
+                    let frunner = PipeRunner::new(vec![Box::new(CompilerPipe::new()), Box::new(PreModelPipe::new()), Box::new(ModelPipe::new()), Box::new(LinearModelPipe::new())]);
+                    let fb = match frunner.run(PipeableData::String(srcf.clone()), &PipeContext::new(consts(), &ufns)) { Ok(st) => match st.last() { Some(PipeableData::LinearModel(l)) => Ok(l.to_string()), _ => Err("last stage is not a linear model".to_string()) }, Err((e, _)) => Err(format!("{}", e).chars().take(160).collect::<String>()) };
+                    let fc = RoocParser::new(src_data2.clone()).parse_and_transform(vec![], &fns).map_err(|e| e.chars().take(160).collect::<String>()).and_then(|m| Linearizer::linearize(m).map_err(|e| e.to_string())).map(|l| l.to_string());
+                    rep.count("api_function_cases");
+                    if fa != fc { rep.fail(json!({"prop":"C16","kind":"user-function-through-the-api-compiles-differently-from-the-data-it-computes","class":"unclassified","text":srcf,"api":format!("{:?}", fa),"text_result":format!("{:?}", fc)})); }
+                    if fb != fa { rep.fail(json!({"prop":"C16","kind":"pipes-and-direct-calls-disagree-on-a-user-function","class":"unclassified","text":srcf,"pipes":format!("{:?}", fb),"direct":format!("{:?}", fa)})); }
+                }
                 if a != c { rep.fail(json!({"prop":"C16","kind":"data-through-the-api-compiles-differently-from-data-in-the-text","class":"unclassified","text":src_data,"api":format!("{:?}", a),"text_result":format!("{:?}", c)})); }
                 if bpipe != a { rep.fail(json!({"prop":"C16","kind":"pipes-and-direct-calls-disagree-on-api-data","class":"unclassified","text":src_data,"pipes":format!("{:?}", bpipe),"direct":format!("{:?}", a)})); }
                 let _ = i;
